@@ -122,6 +122,7 @@ type FuncCtx struct {
 	curCallArgs []ast.Expr
 	ghostStack []map[string]*Val
 	pendingWB []writeBack
+	observed map[string]bool
 	noMerge  bool
 }
 
@@ -444,9 +445,43 @@ const maxLenLit = "281474976710656"
 
 // ---------------------------------------------------------- obligations ---
 
+// splitGoal breaks a goal into its top-level conjuncts ((and a b), (=> h (and a b)))
+// so that each is decided by its own, smaller query.
+func splitGoal(g string) []string {
+	if strings.HasPrefix(g, "(and ") {
+		var out []string
+		for _, p := range splitArgs(g[len("(and ") : len(g)-1]) {
+			out = append(out, splitGoal(p)...)
+		}
+		return out
+	}
+	if strings.HasPrefix(g, "(=> ") {
+		args := splitArgs(g[len("(=> ") : len(g)-1])
+		if len(args) == 2 {
+			parts := splitGoal(args[1])
+			if len(parts) > 1 {
+				var out []string
+				for _, p := range parts {
+					out = append(out, mkImplies(args[0], p))
+				}
+				return out
+			}
+		}
+	}
+	return []string{g}
+}
+
 func (c *FuncCtx) oblige(st *State, kind, name string, pos token.Pos, goal string, tags []string, text string) {
 	if st.dead {
 		return
+	}
+	if kind != "cover" {
+		if parts := splitGoal(goal); len(parts) > 1 && len(parts) <= 12 {
+			for _, p := range parts {
+				c.oblige(st, kind, name, pos, p, tags, text)
+			}
+			return
+		}
 	}
 	g := mkImplies(mkAnd(st.guard...), goal)
 	if g == tTrue {
